@@ -17,6 +17,13 @@ CLAIMED = {
             "real functions over the complete order-relation grid; falsifier against the documented inequalities.",
             "7 C07", "Coq proof over translated source + translation validation"),
 }
+CLAIMED["C06"] = ("proof", "Properties/C06.v: each of the 25 GENERATED compute_from_abcd formulas equals its textbook definition "
+    "(written from the literature in Proofs/C06_spec.v, incl. EDS/SEDS in their published ln(a/n) forms via ln_mult) for every real table "
+    "a,b,c,d >= 0 and is NaN exactly where the textbook is undefined; never infinite; perfect forecasts attain the declared "
+    "perfect_score (read from the class) wherever defined; the generated counting function puts every valid pair in exactly one cell "
+    "(sum = #valid pairs, induction over vectors of any length), swap and complement symmetries. Translation validation on floats "
+    "against compute_from_abcd/_compute_abcd; falsifier with an independent oracle over all tables up to a total and vectors "
+    "realising them for all 8 bin types.", "7 C06", "Coq proof over translated source + translation validation")
 PENDING = {}
 
 def main():
